@@ -861,6 +861,30 @@ class spawn(SpawnBase):
                     break
                 self._log(data, 'send')
                 self.__interact_writen(self.child_fd, data)
+        else:
+            # The loop ended because the child exited, not through a break:
+            # what the child wrote last may still be queued in the pty.
+            while True:
+                if self.use_poll:
+                    r = poll_ignore_interrupts([self.child_fd], 0)
+                else:
+                    r, w, e = select_ignore_interrupts(
+                        [self.child_fd], [], [], 0
+                    )
+                if self.child_fd not in r:
+                    break
+                try:
+                    data = self.__interact_read(self.child_fd)
+                except OSError as err:
+                    if err.args[0] == errno.EIO:
+                        break
+                    raise
+                if data == b'':
+                    break
+                if output_filter:
+                    data = output_filter(data)
+                self._log(data, 'read')
+                os.write(self.STDOUT_FILENO, data)
 
 
 def spawnu(*args, **kwargs):
